@@ -53,7 +53,7 @@ func (f *Frame) elemSet(st *State, s Val, n Term) (Term, *Sort, bool) {
 	row := Select(c, s.arr())
 	app := func(k Term) Term { return mk(setSort(es), fn, row, k) }
 	key := "es-unfold|" + row.S + "|" + n.S
-	if !vc.declared[key] {
+	if !vc.declared[key] && !vc.hasBound(row, n) {
 		vc.declared[key] = true
 		prev := Sub(n, One)
 		vc.fact(Eq(app(n), Ite(Le(n, Zero), ConstArr(setSort(es), False), Store(app(prev), Select(row, prev), True))))
@@ -129,7 +129,7 @@ func (f *Frame) fieldSet(st *State, s Val, field string, n Term) (Term, *Sort, b
 	h := vc.get(st, comp)
 	app := func(k Term) Term { return mk(setSort(fs), fn, row, h, k) }
 	key := "fs-unfold|" + row.S + "|" + h.S + "|" + n.S
-	if !vc.declared[key] {
+	if !vc.declared[key] && !vc.hasBound(row, h, n) {
 		vc.declared[key] = true
 		prev := Sub(n, One)
 		vc.fact(Eq(app(n), Ite(Le(n, Zero), ConstArr(setSort(fs), False), Store(app(prev), Select(h, Select(row, prev)), True))))
